@@ -66,6 +66,7 @@ fn main() {
         ("gen", "C19") => c19::generate(&a),
         ("capichild", "C19") => c19::child(&a),
         ("parsechild", "C08") => c08::child(&a),
+        ("cliber", "C20") => c20::cliber_child(&a),
         ("gen", "C18") => c18::generate(&a),
         ("gen", "C12") => c12::generate(&a),
         ("gen", "C13") => c13::generate(&a),
